@@ -158,6 +158,22 @@ pub fn run_impl(c: &Case) -> Vec<(String, String)> {
                     out.push(("directmax".to_string(), hxs(&dm)));
                 }
             }
+            // laziness (C12): pull the outputs one at a time through a counting input iterator; after the
+            // k-th output exactly k inputs may have been consumed
+            let lazy = guard(|| {
+                use std::cell::Cell;
+                let pulled = Cell::new(0usize);
+                let input = xs.iter().cloned().inspect(|_| pulled.set(pulled.get() + 1));
+                let mut it = p.evaluate_v(input);
+                let mut ok = pulled.get() == 0;
+                let mut k = 0usize;
+                while it.next().is_some() {
+                    k += 1;
+                    ok &= pulled.get() == k;
+                }
+                if ok { "1".to_string() } else { "0".to_string() }
+            });
+            out.push(("lazy".to_string(), lazy));
             guard(|| hxs(&p.evaluate_v(xs.iter().cloned()).collect::<Vec<_>>()))
         }),
         "deriv" => with_deriv!(tag, T => guard(|| hxs(&T::from_nums(c.li("p")).derivative().to_nums()))),
